@@ -103,6 +103,16 @@ func gvFld(x any, name string) any {
 	}
 	return gvAccessible(f).Interface()
 }
+func gvDeref(x any) any {
+	v := reflect.ValueOf(x)
+	if v.Kind() == reflect.Ptr {
+		if v.IsNil() {
+			return reflect.Zero(v.Type().Elem()).Interface()
+		}
+		return v.Elem().Interface()
+	}
+	return x
+}
 func gvIdx(x any, i any) any {
 	v := reflect.ValueOf(x)
 	if v.Kind() == reflect.Ptr {
